@@ -70,6 +70,13 @@ Section Main.
     split; [now apply FInv_init|]. apply (step_f_inv W fsem fpre rorder sem WF NB CP NS).
   Qed.
 
+  (* what the invariant says: the C01 invariant, and no stale value *)
+  Theorem inv_meaning s : FInv s ->
+    Inv W sem s /\
+    forall n, n < N -> isinput n = false ->
+      is_raise (fspec (st_cache s) n) = true -> st_cache s n = VNone.
+  Proof. intros I. split; [apply I|intros; eapply FInv_fail_empty; eauto]. Qed.
+
   (* the failing evaluate itself: the invariant, what it stored, and that the
      cell it was asked for (a formula cell) is left empty *)
   Theorem failed_evaluate s n : FInv s -> n < N ->
